@@ -352,6 +352,8 @@ def run(run: Run):
     run.assumptions += ['TransferManager.transfers never holds two transfers with the same (username, remote_path, direction) (add() deduplicates)',
                         'a process end is modelled by the last completed write (torn shelve files are out of scope)']
     run.prove(['tr_state', 'tr_transfer'], extra_targets=['theories/C03/Eval.vo', 'theories/C17/Eval.vo'])
+    if L.gen_reasons() != L.REASONS[1:4]:
+        run.add_broken('constants: AbortReason values vs harness numbering', str(L.gen_reasons()))
     mon = Monitor(run)
     tmp = tempfile.mkdtemp(prefix='verif_c17_')
     read_cases, load_cases, c03_cases, legacy_cases = [], [], [], []
@@ -417,30 +419,7 @@ def run(run: Run):
             except Exception as e:
                 run.add_finding(Finding(f'legacy-unpickle-raised:{type(e).__name__}', f'reading a legacy pickle raised {type(e).__name__}: {e}', {'legacy': True}))
             run.case({'legacy': len(legacy_cases)}, nontrivial=False, kind='legacy-pickle')
-        # the legacy cache shipped with the repository's unit tests
-        res = REPO / 'tests' / 'unit' / 'resources' / 'data'
-        if (res / 'transfers.dat').exists():
-            d = tempfile.mkdtemp(dir=tmp)
-            shutil.copytree(res, d, dirs_exist_ok=True)
-            from aioslsk.transfer.cache import TransferShelveCache
-            from aioslsk.transfer.model import Transfer, TransferDirection
-            loop = vloop.new_loop()
-            try:
-                mgr = L.make_manager(TransferShelveCache(d))
-                try:
-                    loop.run_coro(mgr.load_data())
-                except Exception as e:
-                    run.add_finding(Finding(f'legacy-unpickle-raised:{type(e).__name__}', f'loading tests/unit/resources/data raised {type(e).__name__}: {e}',
-                                            {'resource': str(res)}))
-                fresh = Transfer('a', 'b', TransferDirection.DOWNLOAD)
-                for t in mgr.transfers:
-                    missing = sorted(set(vars(fresh)) - set(vars(t)))
-                    if missing:
-                        run.add_finding(Finding('legacy-attributes-missing', f'transfer from tests/unit/resources/data lacks {missing}', {'resource': str(res)}))
-                mon.loaded({'resource': str(res)}, [], mgr)
-                run.case({'legacy-resource': len(mgr.transfers)}, kind='legacy-resource')
-            finally:
-                vloop.close_loop(loop)
+        check_resource(run, mon, tmp)
     finally:
         shutil.rmtree(tmp, ignore_errors=True)
 
@@ -479,6 +458,40 @@ def run(run: Run):
         run.add_broken(e.obligation, e.detail)
 
 
+def check_resource(run, mon, tmp):
+    """the legacy cache shipped with the repository's unit tests (written by an older version)"""
+    # the legacy cache shipped with the repository's unit tests
+    res = REPO / 'tests' / 'unit' / 'resources' / 'data'
+    if (res / 'transfers.dat').exists():
+        d = tempfile.mkdtemp(dir=tmp)
+        shutil.copytree(res, d, dirs_exist_ok=True)
+        from aioslsk.transfer.cache import TransferShelveCache
+        from aioslsk.transfer.model import Transfer, TransferDirection
+        loop = vloop.new_loop()
+        try:
+            mgr = L.make_manager(TransferShelveCache(d))
+            try:
+                loop.run_coro(mgr.load_data())
+            except Exception as e:
+                run.add_finding(Finding(f'legacy-unpickle-raised:{type(e).__name__}', f'loading tests/unit/resources/data raised {type(e).__name__}: {e}',
+                                        {'resource': str(res)}))
+            fresh = Transfer('a', 'b', TransferDirection.DOWNLOAD)
+            for t in mgr.transfers:
+                missing = sorted(set(vars(fresh)) - set(vars(t)))
+                if missing:
+                    run.add_finding(Finding('legacy-attributes-missing', f'transfer from tests/unit/resources/data lacks {missing}', {'resource': str(res)}))
+            # what this cache (written by an older version) holds is known: it must be read as that
+            got = sorted((t.username, t.remote_path, t.direction.name, t.state.VALUE.name) for t in mgr.transfers)
+            want = [('user0', '@abcdef\\file.mp3', 'DOWNLOAD', 'VIRGIN'), ('user1', '@abcdef\\file.flac', 'UPLOAD', 'VIRGIN')]
+            if got != want:
+                run.add_finding(Finding('legacy-cache-misread', f'tests/unit/resources/data is read as {got}', {'resource': str(res)},
+                                        observed=got, expected=want))
+            mon.loaded({'resource': str(res)}, [], mgr)
+            run.case({'legacy-resource': len(mgr.transfers)}, kind='legacy-resource')
+        finally:
+            vloop.close_loop(loop)
+
+
 def one_call(rng):
     op = rng.choice(L.OPS)
     if op in ('fail', 'abort'):
@@ -505,6 +518,8 @@ def replay(rep) -> int:
             run_history(tmp, [specs], mon, r)
         elif 'transfer' in wit:
             run_history(tmp, [[wit['transfer']]], mon, r)
+        elif 'resource' in wit:
+            check_resource(r, mon, tmp)
     finally:
         shutil.rmtree(tmp, ignore_errors=True)
     for f in r.findings:
